@@ -28,7 +28,7 @@ func TestC11(t *testing.T) {
 	mon.Main(t, mon.Check{
 		ID:          "C11",
 		Level:       "exploration",
-		Rule:        "real mailbox.Server (Accept) and mailbox.Client (Dial) over the in-memory relay with real NoiseGrpcConn handshakes and gRPC-like drivers (the listener calls Accept again at once; the dialer re-dials when its connection is done; failed handshakes close the connection), in real time, sessions in parallel. Each session runs a PRNG-ordered script: first pairing with the passphrase (XX, version 2), echo transfer, then a sequence drawn from {close by client, close by server (the client's pending read must fail within 5 s: the close is signalled), relay failure window (every relay Send/Recv fails for 2-4 s), relay restart (all mailboxes dropped), a malformed packet in the listener's mailbox while it waits for the next SYN (that attempt fails inside Accept; the accept loop, like grpc.Server.Serve, goes on only if the error says it is temporary), idle}; in a third of the sessions the relay refuses the first one or two mailbox deletions (the ones the listener issues when it leaves the passphrase rendezvous), each followed by an echo that must succeed on the current or on a freshly handed-out connection, and finally an intruder: a different client that holds only the original passphrase dials and handshakes for 14 s (a legitimate client needs 4-5 s). Oracles: (1) whenever Accept / Dial hands out connection k+1, connection k's Done channel is already closed (checked at the hand-out), and the acquire/release history is a linearization of a one-slot lock (porcupine); (2) after every close / failure a fresh connection is handed out and the echo works within 90 s (a miss is re-run alone before it counts); (3) after the version-2 pairing both sides hold each other's key, every later connection uses the ECDH-derived stream ids on both sides (read from the connections' addresses and from the relay's log), its handshake is the key-based pattern, the passphrase boxes are deleted, and the intruder completes no handshake and receives no auth payload. A quarter of the sessions use the listener and dialer without noise: the peer writes a message, the reader consumes only a part of it, both sides close, and the next connection handed out must deliver exactly what is written on it (nothing left over from its predecessor), for 2-4 generations. A third of the sessions have their first one or two stream closes report an error; in half of the garbage-to-listener events the dialer is held in back-off so that the malformed packet is the first packet of the listener's refreshed handshake; the dial loop gives every attempt a context of its own that is cancelled once the transport is up (as grpc does). Non-trivial = a session that paired (or exchanged raw data) and reconnected at least once; distinct = script.",
+		Rule:        "real mailbox.Server (Accept) and mailbox.Client (Dial) over the in-memory relay with real NoiseGrpcConn handshakes and gRPC-like drivers (the listener calls Accept again at once; the dialer re-dials when its connection is done; failed handshakes close the connection), in real time, sessions in parallel. Each session runs a PRNG-ordered script: first pairing with the passphrase (XX, version 2), echo transfer, then a sequence drawn from {close by client, close by server (the client's pending read must fail within 5 s: the close is signalled), relay failure window (every relay Send/Recv fails for 2-4 s), relay restart (all mailboxes dropped), a malformed packet in the listener's mailbox while it waits for the next SYN (that attempt fails inside Accept; the accept loop, like grpc.Server.Serve, goes on only if the error says it is temporary), idle}; in a third of the sessions the relay refuses the first one or two mailbox deletions (the ones the listener issues when it leaves the passphrase rendezvous), in a third a stray SYN with another window lies in the dialer's mailbox at the key-derived rendezvous when it is first created (the first dial after the pairing fails in its GBN handshake; the next must go to the same rendezvous), each followed by an echo that must succeed on the current or on a freshly handed-out connection, and finally an intruder: a different client that holds only the original passphrase dials and handshakes for 14 s (a legitimate client needs 4-5 s). Oracles: (1) whenever Accept / Dial hands out connection k+1, connection k's Done channel is already closed (checked at the hand-out), and the acquire/release history is a linearization of a one-slot lock (porcupine); (2) after every close / failure a fresh connection is handed out and the echo works within 90 s (a miss is re-run alone before it counts); (3) after the version-2 pairing both sides hold each other's key, every later connection uses the ECDH-derived stream ids on both sides (read from the connections' addresses and from the relay's log), its handshake is the key-based pattern, the passphrase boxes are deleted, and the intruder completes no handshake and receives no auth payload. A quarter of the sessions use the listener and dialer without noise: the peer writes a message, the reader consumes only a part of it, both sides close, and the next connection handed out must deliver exactly what is written on it (nothing left over from its predecessor), for 2-4 generations. A third of the sessions have their first one or two stream closes report an error; in half of the garbage-to-listener events the dialer is held in back-off so that the malformed packet is the first packet of the listener's refreshed handshake; the dial loop gives every attempt a context of its own that is cancelled once the transport is up (as grpc does). Non-trivial = a session that paired (or exchanged raw data) and reconnected at least once; distinct = script.",
 		Assumptions: []string{"real time: liveness verdicts follow the re-run rule; exclusivity and rendezvous verdicts do not depend on time"},
 		NCases: func(tier string) int {
 			if tier == "thorough" {
@@ -171,7 +171,29 @@ func c11Session(seed int64, patience time.Duration) *c11Result {
 		closeFail.Store(int64(1 + rng.Intn(2)))
 		res.rep["failed_stream_closes"] = closeFail.Load()
 	}
+	// In a third of the sessions a stray packet of some earlier conversation
+	// (a SYN proposing another window) lies in the dialer's mailbox at the
+	// key-derived rendezvous when that mailbox is first created: the first
+	// dial after the pairing fails in its GBN handshake, and the dialer's
+	// next attempt must still go to the key-derived rendezvous.
+	keySIDEarly, _ := mailbox.NewConnData(keyC, keyS.PubKey(), pass, nil, nil, nil).SID()
+	newClientBox := sidHex(mailbox.GetSID(keySIDEarly, true))
+	var stray atomic.Bool
+	if rng.Intn(3) == 0 {
+		stray.Store(true)
+		res.rep["stray_packet_at_new_rendezvous"] = true
+	}
 	relay.Fault = func(op sim.RelayOp) sim.RelayAction {
+		if op.Kind == "newbox" && op.Stream == newClientBox && stray.CompareAndSwap(true, false) {
+			go func() {
+				for i := 0; i < 400; i++ {
+					if relay.Inject(newClientBox, []byte{sim.TSyn, 5}) {
+						return
+					}
+					time.Sleep(5 * time.Millisecond)
+				}
+			}()
+		}
 		if op.Kind == "closesend" || op.Kind == "closerecv" {
 			if closeFail.Add(-1) >= 0 {
 				return sim.RelayAction{Fail: breakErr}
